@@ -1,6 +1,6 @@
 CONSTANTS
   Sigma <- SigRepl
-  MaxTok = 4
+  MaxTok = 3
   MaxStack = 80
   MaxFuel = 400
   Export = TRUE
